@@ -515,7 +515,7 @@ def compare(case, obs, child, viol, transport):
         rc = root_cause(v)
         got = obs.get(name)
         if got is None:
-            viol(f"missing:{rc}", f"[{transport}] {name} is not declared in the daemon shell after the transfer")
+            viol(f"quoting:{rc}", f"[{transport}] missing: {name} is not declared in the daemon shell after the transfer")
             continue
         flags, pairs = got
         if isinstance(v, list):
